@@ -17,6 +17,8 @@ def run(ctx):
         {"scens": kf, "policies": ("LIFO",), "kills": {"restart_bound": 0}},
         {"scens": [ks[0], ks[3]] if q else ks, "policies": ("FIFO",), "kills": {"restart_bound": 1}},
         {"scens": ks[:3] if q else ks, "policies": ("LIFO",), "kills": {"restart_bound": 0}},
+        # one deviation after the kill around LIFO as well (the orphaned job process is slow to reach its run lock)
+        {"scens": ks[:1] if q else ks[:4], "policies": ("LIFO",), "kills": {"restart_bound": 1}},
     ]
     if not q:
         plan.append({"scens": ks, "policies": ("LIFO",), "kills": {"restart_bound": 0}})
